@@ -145,7 +145,7 @@ var extTypes = []ExtType{
 // TypelessChildVocab: a typeless type BELOW a typed one. Being a descendant of as:Object it is a kind
 // of every Object-ranged property, and having no 'type' it matches every embedded object, so the
 // generated decoder reads e.g. an embedded Question as this type (the re-encoded @context then names
-// the extension). That is a recorded finding (thorough tier), judged by the exact set of C12 driver
+// the extension). That is a recorded finding, judged by the exact set of C12 driver
 // keys; a change that makes other cells wrong (e.g. the typeless type getting 'type' back) differs.
 func TypelessChildVocab() ExtVocab {
 	return ExtVocab{Label: "typeless-child", Types: []ExtType{
